@@ -33,7 +33,7 @@ func koRun(variant int, seed uint64) (string, string) {
 	s.Coarse = true
 	s.Watchdog = 3 * time.Second
 	s.IsSpawn = func(site string) bool {
-		return site == "mb.enq.go" || site == "mb.resume.go" || site == "sys.guardian.go" || site == "ctx.pipe.go" || site == "ctx.entrust.go"
+		return site == "mb.enq.go" || site == "mb.resume.go" || site == "mb.release.go" || site == "sys.guardian.go" || site == "ctx.pipe.go" || site == "ctx.entrust.go"
 	}
 	s.IsExit = func(site string) bool { return site == "mb.proc.exit" || site == "ctx.pipe.exit" || site == "exit" }
 	s.Filter = func(site string, obj any) bool {
